@@ -703,6 +703,9 @@ class SchemaGen:
             m["files"].append({"name": "main.xsd" if i == 0 else f"sub/part{i}.xsd" if r.random() < 0.3 else f"part{i}.xsd",
                                "tns": tns, "efd": (r.random() < 0.7) if tns else False,
                                "afd": (r.random() < 0.15) if (tns and self.has("ns")) else False})
+        # a namespaced file must not come before a no-namespace one: it would import it, and xsdata gives a no-namespace
+        # schema that is IMPORTED from a namespaced one the importer's namespace (finding C02-F18, kept as a witness)
+        m["files"][1:] = sorted(m["files"][1:], key=lambda f: f["tns"] is not None)
         self.depth_budget = 3
         # named simple types
         if self.has("simple"):
